@@ -376,7 +376,7 @@ func c12Headers(rc *RC, sutReceives bool) {
 	}
 	hc := cases[ch.Int("workload", len(cases))]
 	restartCase := ch.Chance("workload", 1, 3)
-	changed := ch.Int("workload", 3) // after the restart: 0 same addresses, 1 different from, 2 different to
+	changed := ch.Int("workload", 5) // after the restart: 0 same addresses, 1 different from, 2 different to, 3/4 from/to differing only in the resourcepart
 	useDecoy := ch.Chance("workload", 1, 2)
 	rc.Describe("headers sutReceives=%v ws=%v case=%s restart=%v changed=%d decoy=%v", sutReceives, ws, hc.name, restartCase, changed, useDecoy)
 	rc.CaseKey = fmt.Sprint("hdr", sutReceives, ws, hc.name, restartCase, changed)
@@ -438,10 +438,15 @@ func c12Headers(rc *RC, sutReceives bool) {
 			io.WriteString(peerConn, `<f xmlns='urn:verif:r'/>`)
 			wait("script:ok", "<ok", 1)
 			f, t := origin.String(), "example.net"
-			if changed == 1 {
+			switch changed {
+			case 1:
 				f = "mallory@example.net"
-			} else if changed == 2 {
+			case 2:
 				t = "evil.example.org"
+			case 3:
+				f = origin.String() + "/other"
+			case 4:
+				t = "example.net/other"
 			}
 			if changed != 0 && useDecoy {
 				decoy = fmt.Sprintf(` xmlns:x='urn:x' x:from='%s' x:to='%s'`, origin.String(), "example.net")
@@ -470,10 +475,15 @@ func c12Headers(rc *RC, sutReceives bool) {
 		io.WriteString(peerConn, `<ok xmlns='urn:verif:r'/>`)
 		wait("script:hdr2", hdrOpen, 2)
 		f, t := "example.net", origin.String()
-		if changed == 1 {
+		switch changed {
+		case 1:
 			f = "evil.example.org"
-		} else if changed == 2 {
+		case 2:
 			t = "mallory@example.net"
+		case 3:
+			f = "example.net/other"
+		case 4:
+			t = origin.String() + "/other"
 		}
 		if changed != 0 && useDecoy {
 			decoy = fmt.Sprintf(` xmlns:x='urn:x' x:from='%s' x:to='%s'`, "example.net", origin.String())
